@@ -157,33 +157,43 @@ pub fn parse_shared(w: &Workload) -> Handles {
 /// The sequential reference: every operation on *pristine* state (fresh parses
 /// of the shared texts for each single operation), single-threaded, no simulator.
 pub fn reference(w: &Workload) -> Vec<Vec<String>> {
+    // identical operations have identical references by definition (every reference is computed on
+    // pristine state), so each distinct operation is executed once
+    let mut memo: std::collections::HashMap<String, String> = std::collections::HashMap::new();
     w.threads
         .iter()
         .map(|ops| {
             let mut dropped = vec![false; w.shared.len()];
             ops.iter()
                 .map(|op| {
-                    let mut handles: Handles = match op.shared_index() {
-                        Some(j) if j < w.shared.len() && !dropped[j] => {
-                            let mut hs: Handles = vec![None; w.shared.len()];
-                            let s = &w.shared[j];
-                            hs[j] = catch_unwind(AssertUnwindSafe(|| {
-                                make_handle(s.kind, s.form, &s.text, s.compile).ok()
-                            }))
-                            .unwrap_or(None);
-                            hs
-                        }
-                        _ => vec![None; w.shared.len()],
+                    let live = match op.shared_index() {
+                        Some(j) => j < w.shared.len() && !dropped[j],
+                        None => false,
                     };
                     if let Op::Drop { j } = op {
                         if *j < dropped.len() {
                             dropped[*j] = true;
                         }
                     }
-                    match guarded(op, &mut handles) {
+                    let key = format!("{op:?}|{live}");
+                    if let Some(v) = memo.get(&key) {
+                        return v.clone();
+                    }
+                    let mut handles: Handles = vec![None; w.shared.len()];
+                    if live {
+                        let j = op.shared_index().unwrap();
+                        let s = &w.shared[j];
+                        handles[j] = catch_unwind(AssertUnwindSafe(|| {
+                            make_handle(s.kind, s.form, &s.text, s.compile).ok()
+                        }))
+                        .unwrap_or(None);
+                    }
+                    let v = match guarded(op, &mut handles) {
                         Obs::Done(s) => s,
                         Obs::Victim(_) => "victim-in-reference?!".to_string(),
-                    }
+                    };
+                    memo.insert(key, v.clone());
+                    v
                 })
                 .collect()
         })
@@ -200,7 +210,7 @@ pub struct ExecCfg {
 }
 impl Default for ExecCfg {
     fn default() -> Self {
-        ExecCfg { max_steps: 30_000, stall_ms: 1500, hang_ms: 30_000, alloc_every: 0 }
+        ExecCfg { max_steps: 30_000, stall_ms: 1500, hang_ms: 10_000, alloc_every: 0 }
     }
 }
 impl ExecCfg {
@@ -298,7 +308,8 @@ fn concurrent(
 pub fn execute(w: &Workload, source: Source, cfg: &ExecCfg) -> Outcome {
     let shared = parse_shared(w);
     let (obs, mut violations, report, hung) = concurrent(w, source, cfg, &shared);
-    let reference = reference(w);
+    // after a hang the stuck threads may hold real locks for ever: touch nothing of the code under test
+    let reference = if hung { Vec::new() } else { reference(w) };
     if hung {
         violations.push(Violation {
             oracle: "O7".into(),
